@@ -3,12 +3,11 @@
 property) and manifest.d/not_applicable.json."""
 import glob, json, os
 V = os.path.dirname(os.path.dirname(os.path.abspath(__file__)))
-import subprocess
-tracked = set(subprocess.run(["git", "-C", V, "ls-files", "manifest.d"], capture_output=True, text=True).stdout.split())
+# only checks the coordinator has run and accepted are claimed (manifest.d/ENABLED)
+enabled = set(open(os.path.join(V, "manifest.d", "ENABLED")).read().split())
 checks = []
 for p in sorted(glob.glob(os.path.join(V, "manifest.d", "C*.json"))):
-    # only checks whose files are committed are claimed
-    if os.path.relpath(p, V) in tracked:
+    if os.path.basename(p)[:-5] in enabled:
         checks.append(json.load(open(p)))
 claimed = {c["property_id"] for c in checks}
 na_path = os.path.join(V, "manifest.d", "not_applicable.json")
